@@ -337,6 +337,35 @@ Definition api_prune : M unit :=
   for_each_set remove_ns ss ;;;
   for_each_set (fun i => remove_cp_and_links i true) is_.
 
+(* ---- prune as repaired by proposed_fixes/C08-7: every removal step first checks (node_exists) that its element is
+   still there - skipping what an earlier step already removed - and services / interfaces are disconnected before the
+   graph-level removal, like the other removals.  Selected by the harness when the running library's _prune_ns
+   contains the node_exists guard. ---- *)
+Definition exists_as (c : cls) (n : N) : M bool := m_get (fun g => has_node g n && cls_eqb (class_of g n) c).
+Definition prune_node7 (nn : N * N) : M unit :=                  (* (name, id) of the Node handle *)
+  b <- exists_as CNode (snd nn) ;; if b then api_remove_node (fst nn) else ret tt.
+Definition prune_comp7 (cn : N * (N * N)) : M unit :=            (* (component name, (component id, parent id)) *)
+  b <- exists_as CComp (fst (snd cn)) ;; if b then api_remove_component (snd (snd cn)) (fst cn) else ret tt.
+Definition prune_ns7 (s : N) : M unit :=
+  b <- exists_as CNS s ;; if b then remove_ns_disconnecting s else ret tt.
+Definition prune_if7 (i : N) : M unit :=
+  b <- exists_as CCP i ;;
+  if b then (ifs <- m_get (fun g => disc_list g [i]) ;;
+             for_each_set disconnect_step ifs ;;;
+             remove_cp_and_links i true)
+  else ret tt.
+
+Definition api_prune7 : M unit :=
+  ns_ <- m_get (fun g => map (fun n => (name_of g n, n)) (filter (marked g) (prune_nodes g))) ;;
+  cs <- m_get (fun g => map (fun cn => (name_of g (fst cn), cn))
+                           (filter (fun cn => marked g (fst cn)) (prune_comps g))) ;;
+  ss <- m_get (fun g => dedup (filter (marked g) (prune_all_nss g))) ;;
+  is_ <- m_get (fun g => dedup (filter (marked g) (flat_map (ns_interfaces g) (prune_all_nss g)))) ;;
+  for_each_set prune_node7 ns_ ;;;
+  for_each_set prune_comp7 cs ;;;
+  for_each_set prune_ns7 ss ;;;
+  for_each_set prune_if7 is_.
+
 (* ------------------------------------------------------------------------------------------ *)
 (* one operation of the interface, and its execution from a snapshot                           *)
 (* ------------------------------------------------------------------------------------------ *)
@@ -353,7 +382,8 @@ Inductive op :=
 | OUnpeer6 (a b : N)
 | ORemoveInterface (s : N) (iname : N)
 | ORemoveChild (p : N) (iname : N)
-| OPrune.
+| OPrune
+| OPrune7.
 
 (* caches: the _interfaces lists of the handles the operation goes through (0, 1 or 2 of them) *)
 Definition exec (experiment : bool) (o : op) (caches : list (list N)) : M (list (list N)) :=
@@ -373,6 +403,7 @@ Definition exec (experiment : bool) (o : op) (caches : list (list N)) : M (list 
   | ORemoveInterface s i => c <- api_remove_interface experiment s i c1 ;; ret [c]
   | ORemoveChild p i => c <- api_remove_child p i c1 ;; ret [c]
   | OPrune => api_prune ;;; ret caches
+  | OPrune7 => api_prune7 ;;; ret caches
   end.
 
 (* ---- correspondence: the recorded implementation observation vs the model's prediction ---- *)
